@@ -14,7 +14,8 @@ struct Cur {
   Cur(const char* p_, size_t n_) : p(p_), n(n_), i(0), ok(true) {}
   inline char peek() const { return i < n ? p[i] : '\0'; }
   inline void sp() { for (unsigned k = 0; k < 4 && i < n && p[i] == ' '; k++) i++; }
-  inline void ch(char c) { if (i < n && p[i] == c) i++; else ok = false; }
+  // the cursor always advances (it stays a constant for the solver as long as the lengths before it are constants); a mismatch is recorded
+  inline void ch(char c) { if (!(i < n && p[i] == c)) ok = false; i++; }
   template<size_t N> inline void lit(const char (&s)[N]) { for (size_t k = 0; k + 1 < N; k++) ch(s[k]); }
   inline void str(const char* s, size_t len) { for (size_t k = 0; k < len; k++) ch(s[k]); }
   inline bool at_end() const { return ok && i == n; }
